@@ -153,6 +153,8 @@ def ite_val(c, a, b):
         return Num(z3.If(c, to_real(a), to_real(b)), "real")
     if isinstance(a, NoneV) and isinstance(b, NoneV):
         return a
+    if isinstance(a, StrV) and isinstance(b, StrV):
+        return StrV(z3.If(c, a.term(), b.term()))
     if isinstance(a, (Num, NoneV, OptV)) and isinstance(b, (Num, NoneV, OptV)):
         oa, ob = as_opt(a), as_opt(b)
         return OptV(z3.If(c, oa.isnone, ob.isnone), ite_val(c, oa.val, ob.val))
@@ -1444,8 +1446,10 @@ def getattr_(I, st, v, attr, node):
         return [(st, Exc("AttributeError", f"type object has no attribute {attr}", I.where(node)))]
     if isinstance(v, StrV):
         return [(st, FunV("libbound", selfv=v, name="str." + attr))]
-    if isinstance(v, TupV) and hasattr(v, "fields") and attr in v.fields:
-        return [(st, v.items[v.fields.index(attr)])]
+    if isinstance(v, NamedTupV):
+        if attr in v.fields:
+            return [(st, v.items[v.fields.index(attr)])]
+        return [(st, Exc("AttributeError", f"'{v.tname}' object has no attribute '{attr}'", I.where(node)))]
     if isinstance(v, DictV):
         return [(st, FunV("libbound", selfv=v, name="dict." + attr))]
     if isinstance(v, Num):
